@@ -94,6 +94,7 @@ type JobResult struct {
 	Seconds  float64
 	Terms    int
 	Outside  map[string]int
+	Traces   [][]sym.SyncEvent
 }
 
 var curRun *RunCtx
@@ -313,6 +314,7 @@ func (rc *RunCtx) runJob(j Job) (res *JobResult) {
 		res.Asserts = e.AssertLabels
 		res.Terms = e.TT.NumTerms()
 		res.Outside = e.Outside
+		res.Traces = e.Traces
 		for f := range e.Encoded {
 			res.Encoded = append(res.Encoded, f)
 		}
